@@ -20,6 +20,15 @@ pub fn run(thorough: bool, seed: u64, _replay: Option<String>) -> Report {
         }
         pool.push(c);
     }
+    // larger legacy single-byte payloads (10-40 kB): long-running probes that overlap in time
+    for (name, enc) in [("russian", "windows-1251"), ("greek", "iso-8859-7"), ("french", "iso-8859-1"), ("polish", "iso-8859-2"), ("hebrew", "windows-1255"), ("turkish", "windows-1254")] {
+        let base = TEXTS.iter().find(|(n, _)| *n == name).unwrap().1;
+        let k = rng.range(9_000, 30_000);
+        let text = stretch(&mut rng, base, k);
+        if let Some(b) = enc_bytes(&text, enc) {
+            pool.push(Case { bytes: b, sett: Sett::default(), tag: format!("legacy-large:{}", enc) });
+        }
+    }
     let reference: Vec<Outcome> = pool
         .iter()
         .map(|c| {
